@@ -16,6 +16,9 @@ import Thanos.Generated.Facts
                          anywhere; `C35_history` lifts it to all histories;
    * `C35_complete`      a Sync that returns nil leaves every eligible local block recorded and
                          complete in the bucket;
+   * `C35_labels`        … with a label version that the labels callback returned DURING that Sync (when
+                         the block's upload began), or — for a block that was already in the bucket —
+                         the version its meta.json already carried; `C35_labels_const`, `history_labelsOK`;
    * `C35_progress_all`  after any history, a crash-free Sync over pairwise non-overlapping local
                          blocks returns nil, in every configuration (the overlap check included);
                          `C35_progress`: without the overlap check (`allowOutOfOrderUploads` or no
@@ -105,11 +108,11 @@ def Sound (locals : List LBlock) (st : State) : Prop :=
 /-- **C35 (record soundness)**: one Sync, cut anywhere, keeps the invariant. -/
 theorem C35_record_sound {locals : List LBlock} (hl : LocalsOK locals) (cfg : Cfg) (k : Fault)
     (st : State) (h : Sound locals st) : Sound locals (sync cfg locals k st).st := by
-  have hinv := loop_inv hl (hasU := st.file.getD []) cfg locals ⟨k, st.bkt, [], none, 0, []⟩ (fun _ hb => hb)
+  have hinv := loop_inv hl (hasU := st.file.getD []) cfg locals ⟨k, st.bkt, [], none, 0, [], st.lbl⟩ (fun _ hb => hb)
     ⟨h.1, by intro id hid; simp at hid, h.2⟩
   unfold sync
   simp only
-  cases hloop : loop cfg locals (st.file.getD []) locals ⟨k, st.bkt, [], none, 0, []⟩ with
+  cases hloop : loop cfg locals (st.file.getD []) locals ⟨k, st.bkt, [], none, 0, [], st.lbl⟩ with
   | abort a =>
     rw [hloop] at hinv
     exact ⟨hinv.good, hinv.has⟩
@@ -117,24 +120,24 @@ theorem C35_record_sound {locals : List LBlock} (hl : LocalsOK locals) (cfg : Cf
     rw [hloop] at hinv
     exact ⟨hinv.good, by simpa [Step.acc] using hinv.up⟩
 
-/-- histories: Syncs under any fault (crash budget / transient failure), and losses of the shipper
-    file, from scratch -/
-inductive History (cfg : Cfg) (locals : List LBlock) : State → Prop where
-  | init : History cfg locals ⟨[], none⟩
-  | sync (st k) : History cfg locals st → History cfg locals (sync cfg locals k st).st
-  | lostFile (st) : History cfg locals st → History cfg locals ⟨st.bkt, none⟩
+/-- histories: Syncs under any fault (crash budget / transient failure), each with its own flags and
+    external labels (`Cfg`), and losses of the shipper file, from scratch -/
+inductive History (locals : List LBlock) : State → Prop where
+  | init : History locals ⟨[], none, []⟩
+  | sync (st cfg k) : History locals st → History locals (sync cfg locals k st).st
+  | lostFile (st) : History locals st → History locals ⟨st.bkt, none, st.lbl⟩
 
-theorem history_sound {locals : List LBlock} (hl : LocalsOK locals) {cfg : Cfg} {st : State}
-    (h : History cfg locals st) : Sound locals st := by
+theorem history_sound {locals : List LBlock} (hl : LocalsOK locals) {st : State}
+    (h : History locals st) : Sound locals st := by
   induction h with
   | init => exact ⟨good_empty _, by simp⟩
-  | sync st k _ ih => exact C35_record_sound hl cfg k st ih
+  | sync st cfg k _ ih => exact C35_record_sound hl cfg k st ih
   | lostFile st _ ih => exact ⟨ih.1, by simp⟩
 
 /-- **C35 (never records an incomplete block)**: in every state of every history, every block
     listed in thanos.shipper.json has its meta.json and all files it lists in the bucket. -/
-theorem C35_history {locals : List LBlock} (hl : LocalsOK locals) {cfg : Cfg} {st : State}
-    (h : History cfg locals st) (id : Nat) (hid : id ∈ st.file.getD []) : Complete st.bkt id :=
+theorem C35_history {locals : List LBlock} (hl : LocalsOK locals) {st : State}
+    (h : History locals st) (id : Nat) (hid : id ∈ st.file.getD []) : Complete st.bkt id :=
   let hs := history_sound hl h
   hs.1.complete id (hs.2 id hid)
 
@@ -220,7 +223,7 @@ theorem C35_complete {locals : List LBlock} (hl : LocalsOK locals) (cfg : Cfg) (
     ⟨hrec, hsound.1.complete _ (hsound.2 _ hrec)⟩
   unfold sync at hok ⊢
   simp only at hok ⊢
-  cases hloop : loop cfg locals (st.file.getD []) locals ⟨k, st.bkt, [], none, 0, []⟩ with
+  cases hloop : loop cfg locals (st.file.getD []) locals ⟨k, st.bkt, [], none, 0, [], st.lbl⟩ with
   | abort a => simp [hloop] at hok
   | cont a =>
     simp only [hloop, decide_eq_true_eq] at hok ⊢
@@ -279,7 +282,7 @@ theorem loop_nofault (cfg : Cfg) (hcfg : cfg.allowOOO = true ∨ cfg.uploadCompa
     state — so after any history of crashes and transient failures it establishes `C35_complete`. -/
 theorem C35_progress (cfg : Cfg) (hcfg : cfg.allowOOO = true ∨ cfg.uploadCompacted = false)
     (locals : List LBlock) (st : State) : (sync cfg locals Fault.none st).ok = true := by
-  obtain ⟨a, h1, h2⟩ := loop_nofault cfg hcfg locals (st.file.getD []) locals ⟨Fault.none, st.bkt, [], none, 0, []⟩ rfl
+  obtain ⟨a, h1, h2⟩ := loop_nofault cfg hcfg locals (st.file.getD []) locals ⟨Fault.none, st.bkt, [], none, 0, [], st.lbl⟩ rfl
   unfold sync
   simp only [h1]
   simpa using h2
@@ -328,18 +331,18 @@ theorem loop_keys {locals : List LBlock} (cfg : Cfg) (hasU : List Nat) : ∀ (bs
 
 theorem sync_keys {locals : List LBlock} (cfg : Cfg) (k : Fault) (st : State)
     (h : KeysLocal locals st.bkt) : KeysLocal locals (sync cfg locals k st).st.bkt := by
-  have := loop_keys cfg (st.file.getD []) locals ⟨k, st.bkt, [], none, 0, []⟩ (fun _ hb => hb) h
+  have := loop_keys cfg (st.file.getD []) locals ⟨k, st.bkt, [], none, 0, [], st.lbl⟩ (fun _ hb => hb) h
   unfold sync
   simp only
-  cases hloop : loop cfg locals (st.file.getD []) locals ⟨k, st.bkt, [], none, 0, []⟩ with
+  cases hloop : loop cfg locals (st.file.getD []) locals ⟨k, st.bkt, [], none, 0, [], st.lbl⟩ with
   | abort a => simpa [hloop, Step.acc] using this
   | cont a => simpa [hloop, Step.acc] using this
 
-theorem history_keys {locals : List LBlock} {cfg : Cfg} {st : State} (h : History cfg locals st) :
+theorem history_keys {locals : List LBlock} {st : State} (h : History locals st) :
     KeysLocal locals st.bkt := by
   induction h with
   | init => intro p hp; simp at hp
-  | sync st k _ ih => exact sync_keys cfg k st ih
+  | sync st cfg k _ ih => exact sync_keys cfg k st ih
   | lostFile st _ ih => exact ih
 
 /-- the invariant of a fault-free Sync over non-overlapping local blocks -/
@@ -367,8 +370,7 @@ theorem overlapCheck_passes {locals : List LBlock} (hno : NoOverlap locals) (cfg
       simp only [cons ms hms, h.nofault]
       exact ⟨some ms, by simp, fun ms' e => by cases e; exact hms⟩
     | none =>
-      obtain ⟨rs, hrs, hl⟩ := checkerSync_some h.keys
-      have : checkerSync locals a.bkt = some rs := by simpa [checkerSync, codeSkipPartial] using hrs
+      obtain ⟨rs, this, hl⟩ := checkerSyncL_some (lbl := a.lbl) (cur := labelNow cfg a.trace.length) h.keys
       have hp : a.fault.passReads (1 + (dirsOf a.bkt).length) = some Fault.none := by
         rw [h.nofault]; rfl
       simp only [hp, this, cons rs hl]
@@ -410,7 +412,7 @@ theorem loop_progress {locals : List LBlock} (hno : NoOverlap locals) (cfg : Cfg
 /-- Full-strength progress statement (every configuration, overlap check included). -/
 def C35_progress_full : Prop :=
   ∀ (cfg : Cfg) (locals : List LBlock), NoOverlap locals →
-    ∀ st, History cfg locals st → (sync cfg locals Fault.none st).ok = true
+    ∀ st, History locals st → (sync cfg locals Fault.none st).ok = true
 
 /-- **C35 (progress, every configuration)**: if no two local blocks overlap in time, then after
     ANY history of crashed or transiently failed Syncs and lost shipper files a fault-free Sync returns nil (and so,
@@ -419,11 +421,182 @@ def C35_progress_full : Prop :=
 theorem C35_progress_all : C35_progress_full := by
   intro cfg locals hno st hist
   have hk := history_keys hist
-  obtain ⟨a, h1, p⟩ := loop_progress hno cfg (st.file.getD []) locals ⟨Fault.none, st.bkt, [], none, 0, []⟩
+  obtain ⟨a, h1, p⟩ := loop_progress hno cfg (st.file.getD []) locals ⟨Fault.none, st.bkt, [], none, 0, [], st.lbl⟩
     (fun _ hb => hb) ⟨rfl, rfl, hk, by intro ms h; cases h⟩
   unfold sync
   simp only [h1]
   simpa using p.errs
+
+-- ---------------------------------------------------------------- external labels
+
+theorem lookupL_cons (i v : Nat) (m : List (Nat × Nat)) (id' : Nat) :
+    lookupL ((i, v) :: m) id' = if i = id' then some v else lookupL m id' := by
+  unfold lookupL
+  by_cases e : i = id' <;> simp only [List.find?_cons, e, decide_true, decide_false, if_true, if_false, Option.map_some]
+
+theorem lookupL_filter_ne (id id' : Nat) (h : id' ≠ id) : ∀ m : List (Nat × Nat),
+    lookupL (m.filter (·.1 ≠ id)) id' = lookupL m id'
+  | [] => rfl
+  | (i, v) :: m => by
+    have ih := lookupL_filter_ne id id' h m
+    by_cases e : i = id
+    · have hf : ((i, v) :: m).filter (·.1 ≠ id) = m.filter (·.1 ≠ id) := by
+        simp only [List.filter_cons, e, ne_eq, not_true_eq_false, decide_false, Bool.false_eq_true, if_false]
+      have : ¬ i = id' := fun e' => h (by rw [← e', e])
+      rw [hf, ih, lookupL_cons, if_neg this]
+    · have hf : ((i, v) :: m).filter (·.1 ≠ id) = (i, v) :: m.filter (·.1 ≠ id) := by
+        simp only [List.filter_cons, e, ne_eq, not_false_eq_true, decide_true, if_true]
+      rw [hf, lookupL_cons, lookupL_cons, ih]
+
+theorem lookupL_setL (m : List (Nat × Nat)) (id v id' : Nat) :
+    lookupL (setL m id v) id' = if id' = id then some v else lookupL m id' := by
+  unfold setL
+  rw [lookupL_cons]
+  by_cases h : id' = id
+  · simp [h]
+  · have : ¬ id = id' := fun e => h e.symm
+    simp only [this, h, if_false]
+    exact lookupL_filter_ne id id' h m
+
+/-- relation between the state at the start of a Sync (`st0`) and the loop state: visibility only
+    grows, and the label recorded for a visible block is either untouched (the block was visible
+    before: the shipper does not re-upload it) or a value the labels callback had during this Sync -/
+structure LblInv (st0 : State) (cfg : Cfg) (a : Acc) : Prop where
+  mono : ∀ id, Visible st0.bkt id → Visible a.bkt id
+  lab : ∀ id, Visible a.bkt id →
+    (Visible st0.bkt id ∧ lookupL a.lbl id = lookupL st0.lbl id) ∨ ∃ n, lookupL a.lbl id = some (labelNow cfg n)
+
+theorem chunk_names_ne_meta {locals : List LBlock} (hl : LocalsOK locals) {b : LBlock} (hb : b ∈ locals) :
+    ∀ p ∈ b.files.chunks, p.1 ≠ metaName := by
+  intro p hp e
+  have := (hl.2 b hb).2 p.1 p.2 (by simp [Block.files, hp])
+  rw [e] at this
+  exact this (by simp [reserved])
+
+theorem doUpload_lbl {locals : List LBlock} (hl : LocalsOK locals) {st0 : State} (cfg : Cfg) {b : LBlock}
+    (hb : b ∈ locals) {a : Acc} (chk : Option (List (Int × Int))) (f : Fault)
+    (hinv : ¬ Visible a.bkt b.id) (h : LblInv st0 cfg a) : LblInv st0 cfg (doUpload cfg b a chk f).acc := by
+  have hkeep : ∀ id, Visible a.bkt id → Visible (uploadF f b.id b.files a.bkt).1.bkt id :=
+    fun id hv => upload_keeps _ _ _ _ _ hv
+  have hother : ∀ id, id ≠ b.id → Visible (uploadF f b.id b.files a.bkt).1.bkt id → Visible a.bkt id := by
+    intro id hne hv
+    unfold Visible at hv ⊢
+    rwa [uploadF_other f b.id b.files a.bkt id metaName hne] at hv
+  unfold doUpload
+  simp only
+  split
+  · refine ⟨fun id hv => hkeep id (h.mono id hv), ?_⟩
+    intro id hv
+    simp only [Step.acc] at hv ⊢
+    rw [lookupL_setL]
+    by_cases e : id = b.id
+    · exact Or.inr ⟨a.trace.length, by simp [e]⟩
+    · simp only [e, if_false]
+      exact h.lab id (hother id e hv)
+  · rename_i hfail
+    have hfail' : (uploadF f b.id b.files a.bkt).1.ok = false := by simpa using hfail
+    have hstill := uploadF_fail_invisible f b.id b.files a.bkt (chunk_names_ne_meta hl hb) hinv hfail'
+    have hlab : ∀ id, Visible (uploadF f b.id b.files a.bkt).1.bkt id →
+        (Visible st0.bkt id ∧ lookupL a.lbl id = lookupL st0.lbl id) ∨ ∃ n, lookupL a.lbl id = some (labelNow cfg n) := by
+      intro id hv
+      by_cases e : id = b.id
+      · subst e; exact absurd hv hstill
+      · exact h.lab id (hother id e hv)
+    split
+    · exact ⟨fun id hv => hkeep id (h.mono id hv), hlab⟩
+    · exact ⟨fun id hv => hkeep id (h.mono id hv), hlab⟩
+
+theorem step_lbl {locals : List LBlock} (hl : LocalsOK locals) {st0 : State} (cfg : Cfg) (hasU : List Nat)
+    {b : LBlock} (hb : b ∈ locals) {a : Acc} (h : LblInv st0 cfg a) :
+    LblInv st0 cfg (stepBlock cfg locals hasU b a).acc := by
+  unfold stepBlock
+  split
+  · exact ⟨h.mono, h.lab⟩
+  · split
+    · exact h
+    · split
+      · exact h
+      · split
+        · exact ⟨h.mono, h.lab⟩
+        · simp only
+          split
+          · exact ⟨h.mono, h.lab⟩
+          · rename_i hnv
+            split
+            · exact ⟨h.mono, h.lab⟩
+            · exact doUpload_lbl hl cfg hb _ _ (by simpa [Visible] using hnv) ⟨h.mono, h.lab⟩
+
+theorem loop_lbl {locals : List LBlock} (hl : LocalsOK locals) {st0 : State} (cfg : Cfg) (hasU : List Nat) :
+    ∀ (bs : List LBlock) (a : Acc), (∀ b ∈ bs, b ∈ locals) → LblInv st0 cfg a →
+      LblInv st0 cfg (loop cfg locals hasU bs a).acc
+  | [], a, _, h => h
+  | b :: rest, a, hbs, h => by
+    have hs := step_lbl hl cfg hasU (hbs b (by simp)) h
+    unfold loop
+    cases hstep : stepBlock cfg locals hasU b a with
+    | abort a' => simpa [hstep, Step.acc] using hs
+    | cont a' =>
+      simp only
+      exact loop_lbl hl cfg hasU rest a' (fun b hb => hbs b (List.mem_cons_of_mem _ hb)) (by simpa [hstep, Step.acc] using hs)
+
+theorem sync_lbl {locals : List LBlock} (hl : LocalsOK locals) (cfg : Cfg) (k : Fault) (st : State) :
+    (∀ id, Visible st.bkt id → Visible (sync cfg locals k st).st.bkt id) ∧
+    ∀ id, Visible (sync cfg locals k st).st.bkt id →
+      (Visible st.bkt id ∧ lookupL (sync cfg locals k st).st.lbl id = lookupL st.lbl id) ∨
+      ∃ n, lookupL (sync cfg locals k st).st.lbl id = some (labelNow cfg n) := by
+  have := loop_lbl hl (st0 := st) cfg (st.file.getD []) locals ⟨k, st.bkt, [], none, 0, [], st.lbl⟩ (fun _ hb => hb)
+    ⟨fun _ hv => hv, fun id hv => Or.inl ⟨hv, rfl⟩⟩
+  unfold sync
+  simp only
+  cases hloop : loop cfg locals (st.file.getD []) locals ⟨k, st.bkt, [], none, 0, [], st.lbl⟩ with
+  | abort a => rw [hloop] at this; exact ⟨this.mono, this.lab⟩
+  | cont a => rw [hloop] at this; exact ⟨this.mono, this.lab⟩
+
+/-- every visible block has a recorded label version -/
+def LabelsOK (st : State) : Prop := ∀ id, Visible st.bkt id → (lookupL st.lbl id).isSome = true
+
+theorem labelsOK_sync {locals : List LBlock} (hl : LocalsOK locals) (cfg : Cfg) (k : Fault) (st : State)
+    (h : LabelsOK st) : LabelsOK (sync cfg locals k st).st := by
+  intro id hv
+  rcases (sync_lbl hl cfg k st).2 id hv with ⟨hv0, e⟩ | ⟨n, e⟩
+  · rw [e]; exact h id hv0
+  · rw [e]; rfl
+
+theorem history_labelsOK {locals : List LBlock} (hl : LocalsOK locals) {st : State} (h : History locals st) :
+    LabelsOK st := by
+  induction h with
+  | init => intro id hv; simp [Visible, Bucket.get] at hv
+  | sync st cfg k _ ih => exact labelsOK_sync hl cfg k st ih
+  | lostFile st _ ih => exact ih
+
+/-- **C35 (external labels)**: after a Sync that returned nil, every eligible local block is in the
+    bucket with a label version `v` such that EITHER the block was already visible before this
+    Sync and `v` is what its meta.json carried then (the shipper records it through the Exists
+    check and never rewrites it), OR `v` is a value the labels callback returned during THIS Sync
+    (`labelNow cfg n`: read when the block's upload began) — never a value from an earlier Sync. -/
+theorem C35_labels {locals : List LBlock} (hl : LocalsOK locals) (cfg : Cfg) (k : Fault) (st : State)
+    (hs : Sound locals st) (hlab : LabelsOK st) (hok : (sync cfg locals k st).ok = true)
+    (b : LBlock) (hb : b ∈ locals) (he : eligible cfg b = true) :
+    ∃ v, lookupL (sync cfg locals k st).st.lbl b.id = some v ∧
+      ((Visible st.bkt b.id ∧ lookupL st.lbl b.id = some v) ∨ ∃ n, v = labelNow cfg n) := by
+  obtain ⟨hrec, _⟩ := C35_complete hl cfg k st hs hok b hb he
+  have hvis := (C35_record_sound hl cfg k st hs).2 b.id hrec
+  rcases (sync_lbl hl cfg k st).2 b.id hvis with ⟨hv0, e⟩ | ⟨n, e⟩
+  · have := hlab b.id hv0
+    cases hl0 : lookupL st.lbl b.id with
+    | none => simp [hl0] at this
+    | some v => exact ⟨v, by rw [e, hl0], Or.inl ⟨hv0, rfl⟩⟩
+  · exact ⟨_, e, Or.inr ⟨n, rfl⟩⟩
+
+/-- with a constant callback value `v` during the Sync, a block that was not in the bucket before
+    ends up with exactly `v` -/
+theorem C35_labels_const {locals : List LBlock} (hl : LocalsOK locals) (cfg : Cfg) (hc : cfg.lswitch = none)
+    (k : Fault) (st : State) (hs : Sound locals st) (hlab : LabelsOK st)
+    (hok : (sync cfg locals k st).ok = true) (b : LBlock) (hb : b ∈ locals) (he : eligible cfg b = true)
+    (hnew : ¬ Visible st.bkt b.id) : lookupL (sync cfg locals k st).st.lbl b.id = some cfg.lcur := by
+  obtain ⟨v, hv, h | ⟨n, e⟩⟩ := C35_labels hl cfg k st hs hlab hok b hb he
+  · exact absurd h.1 hnew
+  · rw [hv, e]; simp [labelNow, hc]
 
 -- ---------------------------------------------------------------- the defect that was repaired
 
@@ -433,12 +606,21 @@ theorem C35_progress_all : C35_progress_full := by
     block was never shipped.  With the repair the directory is skipped. -/
 theorem C35_wedge_before_repair :
     let b : LBlock := ⟨14, 18000, 23000, 2, 19, ⟨[("chunks/000001", 72), ("chunks/000002", 99)], 298⟩⟩
-    let s := (sync ⟨true, false⟩ [b] ⟨some 1, none⟩ ⟨[], none⟩).st
+    let s := (sync ⟨true, false, 1, none⟩ [b] ⟨some 1, none⟩ ⟨[], none, []⟩).st
     s.bkt ≠ [] ∧ s.file = none ∧
     checkerSyncWith false [b] s.bkt = none ∧ checkerSyncWith true [b] s.bkt = some [] ∧
-    (sync ⟨true, false⟩ [b] Fault.none s).ok = true := by decide
+    (sync ⟨true, false, 1, none⟩ [b] Fault.none s).ok = true := by decide
 
 -- ---------------------------------------------------------------- regenerated facts
+
+/-- `upload` asks the labels callback itself, every time; `Shipper` has no field that could hold a
+    resolved copy; the overlap checker gets the callback too -/
+theorem C35_fact_uploadLabels : Thanos.Facts.shipperUploadLabelsExpr = "lset := s.labels()" := by decide
+theorem C35_fact_shipperFields : Thanos.Facts.shipperStructFields =
+    ["logger", "dir", "metrics", "bucket", "source", "metadataFilePath", "uploadCompacted", "allowOutOfOrderUploads",
+     "skipCorruptedBlocks", "hashFunc", "uploadConcurrency", "labels", "mtx"] := by decide
+theorem C35_fact_checkerLabels :
+    Thanos.Facts.shipperCheckerLabelsArg = "func() labels.Labels { return s.labels() }" := by decide
 
 /-- the overlap checker skips a block directory whose meta.json does not exist -/
 theorem C35_fact_checkerSkipsPartial :
@@ -465,15 +647,18 @@ example : LocalsOK exLocals := by
 
 -- first Sync crashes after 2 of the 3 calls of block 1: nothing recorded, block 1 invisible;
 -- the restart uploads both eligible blocks (block 3 is empty) and records them
-example : (sync ⟨true, true⟩ exLocals ⟨some 2, none⟩ ⟨[], none⟩).ok = false := by decide
-example : (sync ⟨true, true⟩ exLocals ⟨some 2, none⟩ ⟨[], none⟩).st.file = none := by decide
-example : (sync ⟨true, true⟩ exLocals Fault.none (sync ⟨true, true⟩ exLocals ⟨some 2, none⟩ ⟨[], none⟩).st).st.file = some [1, 2] := by decide
-example : (sync ⟨true, true⟩ exLocals Fault.none (sync ⟨true, true⟩ exLocals ⟨some 2, none⟩ ⟨[], none⟩).st).ok = true := by decide
+example : (sync ⟨true, true, 1, none⟩ exLocals ⟨some 2, none⟩ ⟨[], none, []⟩).ok = false := by decide
+example : (sync ⟨true, true, 1, none⟩ exLocals ⟨some 2, none⟩ ⟨[], none, []⟩).st.file = none := by decide
+example : (sync ⟨true, true, 1, none⟩ exLocals Fault.none (sync ⟨true, true, 1, none⟩ exLocals ⟨some 2, none⟩ ⟨[], none, []⟩).st).st.file = some [1, 2] := by decide
+example : (sync ⟨true, true, 1, none⟩ exLocals Fault.none (sync ⟨true, true, 1, none⟩ exLocals ⟨some 2, none⟩ ⟨[], none, []⟩).st).ok = true := by decide
+
+-- the labels callback switches from version 1 to 7 after the 3 calls of block 1: block 1 carries 1, block 2 carries 7
+example : (sync ⟨true, true, 1, some (3, 7)⟩ exLocals Fault.none ⟨[], none, []⟩).st.lbl = [(2, 7), (1, 1)] := by decide
 
 -- a transient failure of the 2nd bucket call (the first chunk upload of block 1) with out-of-order uploads allowed:
 -- the Sync goes on, ships block 2, WRITES the file without block 1 and reports an error; block 1 stays invisible
-example : (sync ⟨true, true⟩ exLocals ⟨none, some 1⟩ ⟨[], none⟩).ok = false := by decide
-example : (sync ⟨true, true⟩ exLocals ⟨none, some 1⟩ ⟨[], none⟩).st.file = some [2] := by decide
-example : get (sync ⟨true, true⟩ exLocals ⟨none, some 1⟩ ⟨[], none⟩).st.bkt (1, metaName) = none := by decide
+example : (sync ⟨true, true, 1, none⟩ exLocals ⟨none, some 1⟩ ⟨[], none, []⟩).ok = false := by decide
+example : (sync ⟨true, true, 1, none⟩ exLocals ⟨none, some 1⟩ ⟨[], none, []⟩).st.file = some [2] := by decide
+example : get (sync ⟨true, true, 1, none⟩ exLocals ⟨none, some 1⟩ ⟨[], none, []⟩).st.bkt (1, metaName) = none := by decide
 
 end Thanos.Shipper
